@@ -2,7 +2,7 @@
    canonical bijections (model: Codec/Leaf.v, a transcription of tile.go / extensions.go and of
    tlog.Tile.Path / tlog.ParseTilePath; tie: differential run of the extracted model against
    the Go functions, see checks/c10.py). *)
-From SL Require Import Codec.Leaf Codec.LeafProofs Codec.PathProofs.
+From SL Require Import Base.Cryptobyte Gen.Builders Codec.Leaf Codec.LeafProofs Codec.PathProofs Codec.GenProofs.
 
 (* every entry within the documented limits encodes (no builder error = no panic) and the
    decoder returns exactly that entry and exactly the remaining bytes *)
@@ -57,6 +57,13 @@ Theorem C10_path_roundtrip : forall t, valid_tile t = true ->
   exists s, tile_path t = Some s /\ parse_tile_path s = Some t.
 Proof. exact path_roundtrip. Qed.
 Print Assumptions C10_path_roundtrip.
+
+(* MerkleTreeLeaf as TRANSLATED from tile.go on every run (Gen/Builders.v, /verif/translate) is the
+   model's merkle_tree_leaf, the helper addExtensions being the model's add_extensions *)
+Theorem C10_merkle_leaf_code_is_model : forall e,
+  gen_merkle_tree_leaf (add_extensions e) (l_cert e) (l_pre e) (l_ikh e) (u64 (l_ts e)) = merkle_tree_leaf e.
+Proof. exact gen_merkle_tree_leaf_is_model. Qed.
+Print Assumptions C10_merkle_leaf_code_is_model.
 
 (* non-vacuity: a concrete precertificate entry with two fingerprints meets the hypotheses *)
 Example C10_wf_example :
